@@ -37,6 +37,13 @@ def cases(ctx):
     for i in range(40 if not thorough else 400):
         G = gen.unit_chain_cfg(rng)
         yield {'kind': 'any', 'G': G, 'words': [w for w in gen.all_words(G['Sigma'], 3)][:20]}
+    for i in range(20 if not thorough else 200):
+        G = gen.random_cfg(rng, nvars=rng.randint(1, 3), Sigma=rng.choice([['a', 'ε'], ['ε'], ['a', 'e']]), maxlen=3)
+        if 'e' in G['Sigma'] and rng.random() < 0.7:
+            G['eps'] = 'e'            # the grammar object's epsilon attribute is an ordinary terminal of its rules
+        ws = gen.all_words(sorted(G['Sigma']) or ['a'], 3)
+        if not thorough or ctx.mine(i):
+            yield {'kind': 'any', 'G': G, 'words': ws[:15]}
     # several right-hand sides of 10-16 symbols for one variable: the conversion runs out of capital letters while splitting them
     for i in range(4 if not thorough else 40):
         G, probes = gen.long_rhs_cfg(rng)
@@ -119,6 +126,28 @@ def judge(ctx, c, answers):
                         ctx.violation('correspondence:cfg_cyk', {'case': sub, 'cell': [i, j], 'model': sorted(model.get((i, j), [])), 'impl': sorted(cell)}, no_input=True)
                         break
             ctx.count('cyk-table')
+    # the optional `verbose` parameter only prints: verdict and table must not depend on it
+    import io, contextlib
+    vw = [w for w in c['words'] if 3 <= len(w) <= 6][:3] + c['words'][:1]
+    for w in vw:
+        with contextlib.redirect_stdout(io.StringIO()):
+            gv = call(CA.cfg_accepts_word, G, w, True, limit=30)
+        exp = oracles.cfg_accepts(rules, G0['S'], w)
+        if gv != {'ok': exp}:
+            ctx.violation('cfg-membership(verbose)', {'case': dict(c, words=[w]), 'impl': gv, 'expected': exp})
+            break
+        if c['kind'] == 'cnf' and w and cnf_indep:
+            with contextlib.redirect_stdout(io.StringIO()):
+                gm = call(CA.cfg_cyk_matrix, G, w, True)
+            if 'ok' in gm:
+                T = oracles.cfg_spans(rules, w)
+                X = gm['ok']
+                wrong = [(i, j) for i in range(len(w)) for j in range(i, len(w))
+                         if (set(map(str, X[i, j])) if (i, j) in X else set()) != {A for A in G0['V'] if (A, i, j + 1) in T}]
+                if wrong:
+                    ctx.violation('cyk-cell(verbose)', {'case': dict(c, words=[w]), 'cell': list(wrong[0])})
+                    break
+    ctx.count('verbose-compared')
     if enc.cfg_to_spec(G) != before:
         ctx.violation('argument-mutated', {'case': c})
     # history: a grammar with the SAME rule list but another start variable must be judged on its own
